@@ -26,7 +26,7 @@ RULE = ('Generated budget directories: 1-4 transaction sources with independent 
         'and one of {transform, most_specific, supplemental query, decimal comma, non-comma delimiter, views}.')
 ASSUMPTIONS = ['component correctness (parse/classify/total/views) is decided by C01-C10; C11 decides that every setting reaches its component',
                'the in-process driver is re-confirmed on a fresh-subprocess sample per run']
-REQUIRED_CLASSES = ['same_format_different_settings', 'source_missing_or_unreadable', 'supplemental', 'views', 'csv_rules', 'most_specific', 'decimal_comma', 'subprocess_sample']
+REQUIRED_CLASSES = ['duplicate_source_name', 'same_format_different_settings', 'source_missing_or_unreadable', 'supplemental', 'views', 'csv_rules', 'most_specific', 'decimal_comma', 'subprocess_sample']
 
 case_st = st.fixed_dictionaries({'b': B.budget(), 'drop': st.integers(0, 3), 'sub': st.integers(0, 39)})
 
@@ -130,7 +130,10 @@ def check(case, stats: Stats):
             classes.add('source_missing_or_unreadable')
         # metamorphic: delete one healthy source file -> only its transactions disappear
         ok = [k for k, i in enumerate(mat['sources']) if i['state'] == 'ok']
-        if view is not None and len(ok) >= 2:
+        names = [i['src']['name'] for i in mat['sources']]
+        if len(set(names)) < len(names):
+            classes.add('duplicate_source_name')
+        if view is not None and len(ok) >= 2 and len(set(names)) == len(names):
             k = ok[case['drop'] % len(ok)]
             gone = mat['sources'][k]['src']['name']
             with cli.Budget() as bd2:
